@@ -10,15 +10,15 @@ open Goml Goml.Sem Goml.Wt Goml.Mono
 /-- the statement at one fuel -/
 structure SoundAt (S : Sig) (P : Prog) (n : Nat) : Prop where
   expr : ∀ {e : Expr} {ρ : Env} {w : World} {Γ : TyEnv} {K : Know} {θ : Subst} {v : Val} {w' : World},
-    okE S P Γ K e = true → errs S Γ e = [] → ET S P θ ρ Γ → KOk K ρ →
+    okE S P false Γ K e = true → errs S Γ e = [] → ET S P θ ρ Γ → KOk K ρ →
     eval n P ρ w e = .ok v w' → VT S P v (substTy θ (getTy e))
   list : ∀ {es : List Expr} {ρ : Env} {w : World} {Γ : TyEnv} {K : Know} {θ : Subst} {vs : List Val} {w' : World},
-    okL S P Γ K es = true → errsList S Γ es = [] → ET S P θ ρ Γ → KOk K ρ →
+    okL S P false Γ K es = true → errsList S Γ es = [] → ET S P θ ρ Γ → KOk K ρ →
     evalList n P ρ w es = .ok vs w' → VTs S P vs (substTys θ (getTys es))
   arms : ∀ {arms : List Arm} {d : Option Expr} {ρ : Env} {w : World} {Γ : TyEnv} {K : Know} {θ : Subst}
     {sv : Option String} {st rt : Ty} {sval v : Val} {w' : World},
-    okA S P Γ K sv arms = true → errsArms S Γ st rt arms = [] →
-    (∀ d0, d = some d0 → okE S P Γ K d0 = true ∧ errs S Γ d0 = [] ∧ getTy d0 = rt) →
+    okA S P false Γ K sv arms = true → errsArms S Γ st rt arms = [] →
+    (∀ d0, d = some d0 → okE S P false Γ K d0 = true ∧ errs S Γ d0 = [] ∧ getTy d0 = rt) →
     ET S P θ ρ Γ → KOk K ρ → (∀ x, sv = some x → lookupEnv ρ x = some sval) →
     evalArms n P ρ w sval arms d = .ok v w' → VT S P v (substTy θ rt)
   app : ∀ {name : String} {g : Fn} {θ : Subst} {args : List Val} {w : World} {v : Val} {w' : World},
@@ -31,7 +31,7 @@ section
 variable {S : Sig} {P : Prog}
 
 theorem okProg_fn (hP : okProg S P = true) {name : String} {g : Fn} (h : P.findFn name = some g) :
-    errs S (bindAll g.params []) g.body = [] ∧ getTy g.body = g.ret ∧ okE S P (bindAll g.params []) [] g.body = true := by
+    errs S (bindAll g.params []) g.body = [] ∧ getTy g.body = g.ret ∧ okE S P false (bindAll g.params []) [] g.body = true := by
   unfold okProg at hP
   simp only [List.all_eq_true] at hP
   have hm : g ∈ P.fns := List.mem_of_find?_eq_some h
@@ -63,7 +63,7 @@ theorem step_app (hS : SigClosed S) (hP : okProg S P = true) {n : Nat} (ih : Sou
   rwa [hret] at this
 
 theorem step_list {n : Nat} (ih : SoundAt S P n) {es : List Expr} {ρ : Env} {w : World} {Γ : TyEnv} {K : Know}
-    {θ : Subst} {vs : List Val} {w' : World} (hok : okL S P Γ K es = true) (herr : errsList S Γ es = [])
+    {θ : Subst} {vs : List Val} {w' : World} (hok : okL S P false Γ K es = true) (herr : errsList S Γ es = [])
     (hρ : ET S P θ ρ Γ) (hK : KOk K ρ) (hev : evalList (n + 1) P ρ w es = .ok vs w') :
     VTs S P vs (substTys θ (getTys es)) := by
   cases es with
@@ -89,8 +89,8 @@ theorem step_list {n : Nat} (ih : SoundAt S P n) {es : List Expr} {ρ : Env} {w 
 
 theorem step_arms {n : Nat} (ih : SoundAt S P n) {arms : List Arm} {d : Option Expr} {ρ : Env} {w : World}
     {Γ : TyEnv} {K : Know} {θ : Subst} {sv : Option String} {st rt : Ty} {sval v : Val} {w' : World}
-    (hok : okA S P Γ K sv arms = true) (herr : errsArms S Γ st rt arms = [])
-    (hd : ∀ d0, d = some d0 → okE S P Γ K d0 = true ∧ errs S Γ d0 = [] ∧ getTy d0 = rt)
+    (hok : okA S P false Γ K sv arms = true) (herr : errsArms S Γ st rt arms = [])
+    (hd : ∀ d0, d = some d0 → okE S P false Γ K d0 = true ∧ errs S Γ d0 = [] ∧ getTy d0 = rt)
     (hρ : ET S P θ ρ Γ) (hK : KOk K ρ) (hsv : ∀ x, sv = some x → lookupEnv ρ x = some sval)
     (hev : evalArms (n + 1) P ρ w sval arms d = .ok v w') : VT S P v (substTy θ rt) := by
   cases arms with
@@ -111,7 +111,7 @@ theorem step_arms {n : Nat} (ih : SoundAt S P n) {arms : List Arm} {d : Option E
     rw [evalArms_cons_at] at hev
     by_cases hm : armMatches lhs sval = true
     · rw [if_pos hm] at hev
-      have hres : ∀ K', KOk K' ρ → okE S P Γ K' body = true → VT S P v (substTy θ rt) := by
+      have hres : ∀ K', KOk K' ρ → okE S P false Γ K' body = true → VT S P v (substTy θ rt) := by
         intro K' hK' hok'
         have := ih.expr hok' hbody hρ hK' hev
         rwa [hbt] at this
@@ -152,7 +152,7 @@ theorem eval_local {n : Nat} {ρ : Env} {w : World} {Γ : TyEnv} {θ : Subst} {x
 
 theorem step_expr (hS : SigClosed S) (hP : okProg S P = true) {n : Nat} (ih : SoundAt S P n)
     {e : Expr} {ρ : Env} {w : World} {Γ : TyEnv} {K : Know} {θ : Subst} {v : Val} {w' : World}
-    (hok : okE S P Γ K e = true) (herr : errs S Γ e = []) (hρ : ET S P θ ρ Γ) (hK : KOk K ρ)
+    (hok : okE S P false Γ K e = true) (herr : errs S Γ e = []) (hρ : ET S P θ ρ Γ) (hK : KOk K ρ)
     (hev : eval (n + 1) P ρ w e = .ok v w') : VT S P v (substTy θ (getTy e)) := by
   cases e with
   | var x t =>
@@ -279,8 +279,8 @@ theorem step_expr (hS : SigClosed S) (hP : okProg S P = true) {n : Nat} (ih : So
       simp only [getTy]
       exact ih.expr hok.2 herr.2 (.cons hvv hρ) (KOk_drop hK x vv) hev
   | matchE t s arms d =>
-    have hok' : okE S P Γ K s = true ∧ okA S P Γ K (scrutLocal Γ s) arms = true ∧
-        (∀ d0, d = some d0 → okE S P Γ K d0 = true) := by
+    have hok' : okE S P false Γ K s = true ∧ okA S P false Γ K (scrutLocal Γ s) arms = true ∧
+        (∀ d0, d = some d0 → okE S P false Γ K d0 = true) := by
       cases d with
       | none =>
         simp only [okE, Bool.and_eq_true] at hok
@@ -291,7 +291,7 @@ theorem step_expr (hS : SigClosed S) (hP : okProg S P = true) {n : Nat} (ih : So
     obtain ⟨hs, harms, hdok⟩ := hok'
     rw [eval_matchE] at hev
     have herr' : errs S Γ s = [] ∧ errsArms S Γ (getTy s) t arms = [] ∧
-        (∀ d0, d = some d0 → okE S P Γ K d0 = true ∧ errs S Γ d0 = [] ∧ getTy d0 = t) := by
+        (∀ d0, d = some d0 → okE S P false Γ K d0 = true ∧ errs S Γ d0 = [] ∧ getTy d0 = t) := by
       cases d with
       | none =>
         simp only [errs, List.append_eq_nil_iff] at herr
@@ -545,6 +545,7 @@ theorem step_expr (hS : SigClosed S) (hP : okProg S P = true) {n : Nat} (ih : So
       | var fn tf =>
         simp only [Bool.and_eq_true, Option.isNone_iff_eq_none] at hpoly
         obtain ⟨⟨hnone, hg⟩, hp⟩ := hpoly
+        simp only [Bool.false_and, Bool.or_false] at hp
         cases n with
         | zero => rw [eval_zero] at hev; simp at hev
         | succ m =>
